@@ -22,6 +22,26 @@ TYPE_EXT = {
     'Transform': {'decl': _opaque('Transform', 'crate::vm::transform::Transform')},
     'BuiltInProc': {'decl': _opaque('BuiltInProc', 'crate::vm::vcell::BuiltInProc')},
     'OpCode': {'decl': _opaque('OpCode', 'crate::vm::opcode::OpCode')},
+    'VectorView': {'needs': ['Vector', 'VCell'], 'decl': '''
+/// contents of the interior-mutable vector payload (opaque type); `vector_written` records a store:
+/// it can only be established by a call of Vector::put with exactly that index and value
+pub uninterp spec fn vector_view(v: crate::vm::vector::Vector) -> Seq<crate::vm::vcell::VCell>;
+pub uninterp spec fn vector_written(v: crate::vm::vector::Vector, i: int, x: crate::vm::vcell::VCell) -> bool;
+pub assume_specification [crate::vm::vector::Vector::len] (v: &crate::vm::vector::Vector) -> (r: usize) ensures r == vector_view(*v).len();
+pub assume_specification [crate::vm::vector::Vector::get] (v: &crate::vm::vector::Vector, i: usize) -> (r: Option<crate::vm::vcell::VCell>)
+    ensures i < vector_view(*v).len() ==> r == Some(vector_view(*v)[i as int]), i >= vector_view(*v).len() ==> r is None;
+/// put silently ignores an out-of-range index: the precondition makes every call site prove the index is in range
+pub assume_specification [crate::vm::vector::Vector::put] (v: &crate::vm::vector::Vector, i: usize, x: crate::vm::vcell::VCell)
+    requires i < vector_view(*v).len() ensures vector_written(*v, i as int, x);
+pub assume_specification [crate::vm::vector::Vector::new] (x: Vec<crate::vm::vcell::VCell>) -> (r: crate::vm::vector::Vector) ensures vector_view(r) == x@;
+'''},
+    'EnvView': {'needs': ['LexicalEnvironment', 'VCell'], 'decl': '''
+pub uninterp spec fn env_view(e: crate::vm::environment::LexicalEnvironment) -> Seq<crate::vm::vcell::VCell>;
+pub assume_specification [crate::vm::environment::LexicalEnvironment::slot_len] (e: &crate::vm::environment::LexicalEnvironment) -> (r: usize) ensures r == env_view(*e).len();
+pub assume_specification [crate::vm::environment::LexicalEnvironment::get] (e: &crate::vm::environment::LexicalEnvironment, i: usize) -> (r: crate::vm::vcell::VCell)
+    requires i < env_view(*e).len() ensures r == env_view(*e)[i as int];
+'''},
+    'RcAsRef': {'decl': 'pub assume_specification<T: ?Sized, A: core::alloc::Allocator> [<std::rc::Rc<T, A> as AsRef<T>>::as_ref] (x: &std::rc::Rc<T, A>) -> (r: &T) ensures r == &**x;'},
     'RcDeref': {'decl': 'pub assume_specification<T: ?Sized, A: core::alloc::Allocator> [<std::rc::Rc<T, A> as core::ops::Deref>::deref] (x: &std::rc::Rc<T, A>) -> (r: &T) ensures r == &**x;'},
     'RefCell': {'decl': '#[verifier::external_type_specification] #[verifier::external_body] #[verifier::reject_recursive_types(T)] pub struct ExRefCell<T: ?Sized>(core::cell::RefCell<T>);'},
     # VCell is transparent (variants visible to contracts); its payload types are opaque
@@ -38,6 +58,7 @@ GROUPS = {
     'heap': ['gc', 'vcell', 'heap'],
     'stack': ['vcell', 'stack'],
     'cont': ['vcell', 'stack', 'vm_struct', 'continuation'],
+    'builtins': ['vcell', 'stack', 'vm_struct', 'builtin_mod', 'builtin_vector'],
 }
 
 PROPS = {
